@@ -648,6 +648,68 @@ def exhaustive(npk, ccs=("reno", "cubic"), quick=False):
                     yield {"cc": cc, "mss": 1200, "irtt": fh(0.1), "pcav": 1, "ops": ops}
 
 
+# ------------------------------------------------------------------------------------ builder sessions of real connections
+BUILDER_SESSIONS = []     # one {"cfg":..., "ops":...} (C13's builder case format) per datagrams_to_send call of the simulated runs
+
+
+class _Recording:
+    """While active, QuicConnection builds its datagrams with a subclass of QuicPacketBuilder that records the calls made
+    by connection.py's frame writers as a builder op history: start_packet / start_frame / flush as they are called, and
+    the bytes the writers pushed into the buffer between two calls (difference of buffer positions) as one push op.
+    The recorded sessions are (a) checked against the caller discipline that flight_le_budget assumes and (b) replayed
+    through the builder model tie."""
+
+    def __enter__(self):
+        import aioquic.quic.connection as conn
+        base = conn.QuicPacketBuilder
+        self._conn, self._base = conn, base
+
+        class RecBuilder(base):
+            def __init__(self, **kw):
+                super().__init__(**kw)
+                self._rec_cfg = {"client": int(kw["is_client"]), "mds": kw["max_datagram_size"], "peer": len(kw["peer_cid"]),
+                                 "host": len(kw["host_cid"]), "token": len(kw.get("peer_token", b"")), "pn": kw.get("packet_number", 0)}
+                self._rec_ops = []
+                self._rec_last = 0
+
+            def _rec_sync(self):
+                n = self._buffer.tell() - self._rec_last
+                if n:
+                    self._rec_ops.append(["push", n])
+
+            def start_packet(self, packet_type, crypto):
+                self._rec_sync()
+                self._rec_ops.append(["sp", packet_type.value])
+                try:
+                    return super().start_packet(packet_type, crypto)
+                finally:
+                    self._rec_last = self._buffer.tell()
+
+            def start_frame(self, frame_type, capacity=1, handler=None, handler_args=[]):
+                self._rec_sync()
+                self._rec_ops.append(["sf", int(frame_type), capacity])
+                try:
+                    return super().start_frame(frame_type, capacity, handler, handler_args)
+                finally:
+                    self._rec_last = self._buffer.tell()
+
+            def flush(self):
+                self._rec_sync()
+                self._rec_ops.append(["flush"])
+                try:
+                    return super().flush()
+                finally:
+                    self._rec_last = self._buffer.tell()
+                    if len(self._rec_ops) > 1:
+                        BUILDER_SESSIONS.append({"cfg": dict(self._rec_cfg, mf=self.max_flight_bytes, mt=self.max_total_bytes),
+                                                 "ops": self._rec_ops})
+        conn.QuicPacketBuilder = RecBuilder
+        return self
+
+    def __exit__(self, *a):
+        self._conn.QuicPacketBuilder = self._base
+
+
 # ------------------------------------------------------------------------------------ system-level oracle
 def sim_run(seed, cc, loss, nbytes, max_steps=1500):
     """Two real QuicConnections joined by a lossy in-memory network with virtual time.  After every
@@ -790,7 +852,8 @@ def system_runs(ctx, n):
         params = {"seed": ctx.seed + k, "cc": ("reno", "cubic")[k % 2], "loss": (0.0, 0.05, 0.2, 0.4)[(k // 2) % 4],
                   "nbytes": (60000, 200000)[(k // 8) % 2]}
         try:
-            log, st = sim_run(params["seed"], params["cc"], params["loss"], params["nbytes"])
+            with _Recording():
+                log, st = sim_run(params["seed"], params["cc"], params["loss"], params["nbytes"])
         except Exception as e:
             log, st = [("raise", "simulated connection pair raised %r" % (e,))], {}
         tot["runs"] += 1
@@ -1299,7 +1362,9 @@ def run(ctx):
     # that would start after the deadline are skipped and counted.
     allc = [c for _, b in batches for c in b]
     chunk = 600 if not ctx.thorough else 6000
-    deadline = None if ctx.thorough else ctx.t0 + 100
+    # (counted from here: the separate coqc of props/C08.v, 15-45 s since cwnd_floor_cubic pulls in Flocq and the reals, is not
+    # charged to the recovery tie)
+    deadline = None if ctx.thorough else time.time() + 90
     skipped = 0
     for i in range(0, len(allc), chunk):
         if deadline is not None and i > 0 and time.time() > deadline:
@@ -1315,6 +1380,23 @@ def run(ctx):
     # builder MODEL <-> QuicPacketBuilder on flight-shaped histories + the statement of flight_le_budget as oracle
     fs = flight_suite(ctx)
     fl_cases = corr.load_corpus("C08", fs.name) + fl_gen(rng, ctx.n(2500, 40000))
+    # builder sessions recorded from the real connections of the system runs: the discipline assumed by the flight theorems is
+    # checked on what connection.py really does, and the sessions go through the model tie and the oracle as well
+    sessions = [c for c in BUILDER_SESSIONS if c["cfg"]["mf"] is not None]
+    del BUILDER_SESSIONS[:]
+    real = {"sessions": len(sessions), "ops": sum(len(c["ops"]) for c in sessions), "undisciplined": 0, "in_flight_packets": 0,
+            "budget_below_datagram": sum(1 for c in sessions if c["cfg"]["mf"] < c["cfg"]["mds"])}
+    for c in sessions:
+        _, disc, disc3, _fl, npk = _fl_eval(c)
+        real["in_flight_packets"] += npk
+        if not (disc and disc3):
+            real["undisciplined"] += 1
+            if real["undisciplined"] == 1:
+                ctx.violation("correspondence", "hypothesis of flight_le_budget fails on real traffic: a datagrams_to_send call drove the "
+                              "packet builder outside the caller discipline (BuilderFlight.fl_disciplined)", {"builderflight": c},
+                              signature={"rule": "caller_discipline", "level": "connection"})
+    step = max(1, len(sessions) // ctx.n(1500, 20000))
+    fl_cases += sessions[::step]
     fl_hist = {"disciplined": 0, "one_byte_ack_only": 0, "undisciplined": 0, "with_budget": 0, "budget_below_datagram": 0,
                "in_flight_packets": 0, "budget_exactly_used": 0}
     for c in fl_cases:
@@ -1343,7 +1425,7 @@ def run(ctx):
         "distinct = distinct model expression; non-trivial = at least one send followed by an ack/timeout/discard",
         {"exhaustive_small_scope": skipped < len(rnd) + len(lng) or skipped == 0, "exhaustive_cases": len(ex),
          "cases_skipped_by_time_guard": skipped, "system_tie": system, "builder_flight_budget": builder,
-         "builder_model_tie": fl_hist, "close_round": closing,
+         "builder_model_tie": fl_hist, "builder_sessions_of_real_connections": real, "close_round": closing,
          "generated": {"exhaustive": len(ex), "random": len(rnd), "long": len(lng)}})
 
 
